@@ -9,6 +9,7 @@ from .common import layout
 
 ID = "C17"
 LEVEL = "exploration"
+HISTORY = True  # every second shard first runs a prelude of earlier library use (history.py)
 RULE = (
     "all 12 TPMA_* types: all field masks (exhaustive); all 256 values of the 8-bit types (exhaustive); for 32-bit types walking "
     "ones, walking zeros, every single-field-all-ones pattern and its complement, 0, all-ones and hypothesis-drawn words. Oracle "
